@@ -231,6 +231,13 @@ def run_case(spec, j):
                            lambda: est.score(T, yv))
         expect_value_error('calibrate_threshold', 'labels:' + label,
                            lambda: est.calibrate_threshold(T, yv))
+        # ... whatever the strategy
+        for strat, kw in (('f_beta', {'beta': 1.0}),
+                          ('max_tpr', {'min_rate': 0.5}),
+                          ('max_tnr', {'min_rate': 0.5})):
+          expect_value_error(
+              'calibrate_threshold', 'labels:%s/%s' % (label, strat),
+              lambda: est.calibrate_threshold(T, yv, strategy=strat, **kw))
     else:
       for label, val in tuples_grammar(T, True, with_prep, tsize):
         expect_value_error('score', label, lambda: est.score(val))
